@@ -164,7 +164,8 @@ static void hostile_case(uint64_t index)
     hv_str_add(&s, "%s", seeds[hv_below(&R, sizeof seeds / sizeof *seeds)]);
     if (cls >= 1) for (unsigned k = 0, n = 1 + (unsigned)hv_below(&R, 3); k < n; k++) {
       size_t pos = s.len ? (size_t)hv_below(&R, s.len + 1) : 0;
-      switch (hv_below(&R, 4)) {
+      switch (hv_below(&R, 5)) {
+      case 4: { static const char hb[] = { (char)0xe0, (char)0xe1, (char)0x80, (char)0xff, (char)0xc0, (char)0xa0, (char)0xdf }; char c = hb[hv_below(&R, 7)]; hv_str_addn(&s, &c, 1); if (hv_chance(&R, 1, 2)) hv_str_add(&s, "%s", seeds[hv_below(&R, sizeof seeds / sizeof *seeds)]); break; }   /* a byte above 0x7f right after a (complete) name */
       case 0: { const char *t = seeds[hv_below(&R, sizeof seeds / sizeof *seeds)]; struct hv_str n2; hv_str_init(&n2); hv_str_addn(&n2, s.s, pos); hv_str_addn(&n2, t, strlen(t)); hv_str_addn(&n2, s.s + pos, s.len - pos); hv_str_free(&s); s = n2; break; }
       case 1: if (s.len) { s.len = pos; s.s[pos] = 0; } break;
       case 2: if (s.len) { size_t p = pos < s.len ? pos : s.len - 1; s.s[p] = (char)(1 + hv_below(&R, 255)); } break;
